@@ -2,6 +2,7 @@ package mocrelay_test
 
 import (
 	"fmt"
+	"math"
 	"math/rand/v2"
 	"testing"
 
@@ -26,12 +27,32 @@ var c02U = c02Universe{
 	tagVals:  []string{"", "v1", "v2"},
 }
 
+// c02Edges are the boundary timestamps: the ends of the int64 range, the values around
+// which conversions to time.Time / float64 / int32 wrap or lose precision, and -1/0.
+var c02Edges = []int64{
+	math.MinInt64, math.MinInt64 + 1, -62135596801, -62135596800, -1 << 31, -1, 0,
+	1<<31 - 1, 1 << 31, 1<<32 - 1, 1 << 32, 253402300799, 253402300800, 1 << 53, 1<<53 + 1,
+	9223371974719179007, 9223371974719179008, 1 << 62, math.MaxInt64 - 1, math.MaxInt64,
+}
+
+// c02Time draws a timestamp: mostly from the tiny window 0..5+off, one time in eight an edge value.
+func c02Time(r *rand.Rand, n, off int) int64 {
+	if r.IntN(8) == 0 {
+		v := vk.Pick(r, c02Edges)
+		if r.IntN(4) == 0 && v > math.MinInt64 && v < math.MaxInt64 {
+			v += int64(r.IntN(3) - 1)
+		}
+		return v
+	}
+	return int64(r.IntN(n) + off)
+}
+
 func c02Event(r *rand.Rand) *mocrelay.Event {
 	e := &mocrelay.Event{
 		ID:        vk.Pick(r, c02U.ids),
 		Pubkey:    vk.Pick(r, c02U.authors),
 		Kind:      vk.Pick(r, c02U.kinds),
-		CreatedAt: int64(r.IntN(6)),
+		CreatedAt: c02Time(r, 6, 0),
 		Tags:      []mocrelay.Tag{},
 	}
 	nt := r.IntN(6)
@@ -90,10 +111,10 @@ func c02Filter(r *rand.Rand, withLimit bool) *mocrelay.ReqFilter {
 		}
 	}
 	if r.IntN(3) == 0 {
-		f.Since = vk.Ptr(int64(r.IntN(8) - 1))
+		f.Since = vk.Ptr(c02Time(r, 8, -1))
 	}
 	if r.IntN(3) == 0 {
-		f.Until = vk.Ptr(int64(r.IntN(8) - 1))
+		f.Until = vk.Ptr(c02Time(r, 8, -1))
 	}
 	if withLimit && r.IntN(2) == 0 {
 		f.Limit = vk.Ptr(int64(r.IntN(4)))
@@ -103,7 +124,7 @@ func c02Filter(r *rand.Rand, withLimit bool) *mocrelay.ReqFilter {
 
 func TestVerif_C02(t *testing.T) {
 	rep := vk.NewReport(t, "C02", "exploration")
-	rep.Rule = "events and filters drawn from a tiny universe (4 ids, 3 authors, 4 kinds, 5 tag names x 3 values, timestamps 0..5); every filter field independently absent/empty/singleton/multi; a case is one (event, filter) pair or one (event sequence, filter list) limit run; non-trivial = the filter has at least one condition present; distinct = distinct (presence mask, per-condition outcome vector) for pairs, distinct (limit vector, done-prefix pattern) for sequences"
+	rep.Rule = "events and filters drawn from a tiny universe (4 ids, 3 authors, 4 kinds, 9 tag names x 3 values, timestamps 0..5 and, one time in eight, a boundary value: ends of the int64 range and the points where conversions to time.Time, float64 or int32 wrap); every filter field independently absent/empty/singleton/multi; a case is one (event, filter) pair or one (event sequence, filter list) limit run; non-trivial = the filter has at least one condition present; distinct = distinct (presence mask, per-condition outcome vector) for pairs, distinct (limit vector, done-prefix pattern) for sequences"
 	defer rep.Finish()
 
 	nPairs := vk.N(200_000, 5_000_000)
@@ -124,6 +145,12 @@ func TestVerif_C02(t *testing.T) {
 			}
 			if want {
 				rep.Count("pairs_matching", 1)
+			}
+			if big := func(v *int64) bool { return v != nil && (*v > 100 || *v < -100) }; big(&e.CreatedAt) || big(f.Since) || big(f.Until) {
+				rep.Count("pairs_with_boundary_timestamp", 1)
+				if want {
+					rep.Count("pairs_with_boundary_timestamp_matching", 1)
+				}
 			}
 			if got != want {
 				rep.Violation("match/single-filter", fmt.Sprintf("Match=%v, NIP-01 predicate=%v", got, want),
